@@ -949,7 +949,10 @@ class XMLSchemaBase(XsdValidator, ElementPathMixin[Union[SchemaType, XsdElement]
         if not path or path == tag or path == f'/{tag}':
             return self.maps.elements.get(tag)
         elif path[-1] == '*':
-            xsd_element = self.find(path[:-1] + tag, namespaces)
+            try:
+                xsd_element = self.find(path[:-1] + tag, namespaces)
+            except ElementPathError:
+                xsd_element = None  # a tag not usable in a path (e.g. invalid namespace URI)
             if isinstance(xsd_element, XsdElement) and xsd_element.name == tag:
                 return xsd_element
             else:
